@@ -181,6 +181,15 @@ func (w *World) RestartDiff(st Stats) *Diff {
 		return df("c08:fresh-open-failed", "%v", err)
 	}
 	defer cleanup()
+	// the start block (where a rescan from scratch would begin) only ever moves
+	// BACK, when something older than it is imported; nothing the harness imports
+	// is older than genesis, where it starts
+	var sb *waddrmgr.BlockStamp
+	var sberr error
+	w.View(func(ns walletdb.ReadBucket) error { sb, sberr = waddrmgr.FetchStartBlock(ns); return nil })
+	if sberr != nil || sb == nil || sb.Height != 0 || sb.Hash != *w.Params.GenesisHash {
+		return df("c08:start-block-moved-forward", "the stored start block is %+v (err %v); it was the genesis block and no import carried an older block stamp", sb, sberr)
+	}
 	a := w.Battery(w.DB, w.M)
 	b := w.Battery(fdb, fm)
 	st["c08-restart-comparisons"]++
